@@ -69,3 +69,11 @@ impl ArchetypeVersion {
         }
     }
 }
+
+#[cfg(gecs_verif)]
+impl ArchetypeVersion {
+    /// Verification hook: build an archetype version from a raw value.
+    pub(crate) fn verif_new(version: NonZeroU32) -> Self {
+        Self { version }
+    }
+}
